@@ -454,6 +454,10 @@ pub fn run_all(run: &mut Run, tier: Tier, prop: &str) {
     families(run, tier, prop);
     decision_automaton(run, tier, prop);
     reuse(run, tier, prop);
+    if prop == "C02" {
+        // the compressor as an object: every operation sequence to a depth (shared with C08)
+        crate::c08::compressor_protocol(run, tier, prop);
+    }
     fragmentation(run, tier, prop);
     let t = TRANSITIONS.lock().unwrap();
     run.set("observed_block_decision_transitions", json!(*t));
